@@ -41,6 +41,16 @@ chk("C03", "model_checking",
     "TLA+ transcription (ResChain/IntervalSet/IpCanon) model-checked by TLC; exhaustive spec->impl replay; impl->spec trace validation",
     "DESIGN.md §3 C03")
 
+chk("C13", "model_checking",
+    "TLC checks, over all pairs and triples of (max-length) prefixes of two families at small widths, that transcriptions of "
+    "Prefix::covers and the three Ord impls are total orders consistent with equality, put more-specific first and agree with "
+    "range inclusion; the constructor guard table; and transcriptions of SmallAsnSet::from_iter and its four merge iterators against "
+    "set algebra for all pairs of multisets. Every case is replayed in 4 windows of the 32/128-bit spaces (incl. text round trips, "
+    "hashing, min/max address); random full-width windows are validated by Trace_PrefixLaws.",
+    "Window embeddings preserve covers/order/equality; TLC/SANY.",
+    "TLA+ transcription (PrefixLaws/AsnSet) model-checked by TLC; exhaustive spec->impl replay; impl->spec trace validation",
+    "DESIGN.md §3 C13")
+
 ALL = ["C%02d" % i for i in range(1, 18)]
 
 
